@@ -11,7 +11,7 @@ import os
 
 ACT = {"NONE": 0, "RELU": 1, "RELU_N1_TO_1": 2, "RELU6": 3}
 EXACT_OPS = ["conv", "conv", "conv", "twinconv", "dw", "fc", "maxpool", "avgpool_valid", "add", "add", "sub", "mul", "relu", "relu6", "reshape", "concat", "pad", "quantize",
-             "sslice", "split", "maximum", "minimum", "add_const", "mul_const", "padconv"]
+             "sslice", "split", "maximum", "minimum", "add_const", "mul_const", "padconv", "padpool"]
 APPROX_TAIL_OPS = ["avgpool_same", "logistic", "tanh", "hswish", "lrelu", "softmax", "mean", "resize_nearest", "resize_bilinear", "abs", "tconv", "exp", "log", "sqrt", "rsqrt", "gelu", "prelu"]
 LUT_UNARY = {"exp": "EXP", "log": "LOG", "sqrt": "SQRT", "rsqrt": "RSQRT", "gelu": "GELU"}
 UNREFERENCED_NPU_OPS = ["sqdiff", "shape"]  # accelerated operators without a reference kernel here: generated where values are not compared (C02/C03/C12/C13)
@@ -233,11 +233,11 @@ class NB:
         self.op("FULLY_CONNECTED", [x, wt, bt], [o], "FullyConnectedOptions", fields, version=4)
         return o
 
-    def pool(self, x, kind, pad=None):
+    def pool(self, x, kind, pad=None, min_k=(1, 1)):
         d, st = self.draw, self.st
         X = self.info(x)
         n, h, w, c = X["shape"]
-        kh, kw = d(st.integers(1, min(4, h))), d(st.integers(1, min(4, w)))
+        kh, kw = d(st.integers(min(min_k[0], h), min(4, h))), d(st.integers(min(min_k[1], w), min(4, w)))
         sh, sw = d(st.sampled_from([1, 2, 2, 3])), d(st.sampled_from([1, 2, 2, 3]))
         pad = pad or d(st.sampled_from(["SAME", "VALID"]))
         if kind == "avgpool" and pad == "VALID" and w >= 4 and d(st.integers(0, 3)) == 0:
@@ -790,10 +790,10 @@ def network(profile="exact", max_ops=6, dtypes=("int8", "int8", "int8", "uint8",
                     "gather", "tile", "fc", "mul_const", "tanh", "logistic", "lrelu"]
             n_ops = draw(st.integers(2, max_ops))
         if profile == "cascade":  # chains of spatial operators on tall planes: what the scheduler cascades and stripes
-            menu = ["conv", "conv", "conv", "dw", "dw", "maxpool", "add_const", "relu", "add", "avgpool_valid", "padconv", "resize2"]
+            menu = ["conv", "conv", "conv", "dw", "dw", "maxpool", "add_const", "relu", "add", "avgpool_valid", "padconv", "resize2", "padpool"]
             n_ops = draw(st.integers(2, max_ops))
         if profile == "slices":  # exact-class operators fed by SLICE/STRIDED_SLICE/SPLIT/CONCATENATION/PAD/RESHAPE: read and write offsets on every kind of consumer
-            menu = ["sslice", "sslice", "split", "concat", "pad", "reshape", "conv", "conv", "dw", "maxpool", "avgpool_valid", "relu", "relu6", "add", "mul", "fc", "padconv", "quantize", "maximum",
+            menu = ["sslice", "sslice", "split", "concat", "pad", "reshape", "conv", "conv", "dw", "maxpool", "avgpool_valid", "relu", "relu6", "add", "mul", "fc", "padconv", "padpool", "quantize", "maximum",
                     "transpose", "transpose", "pack", "unpack", "split_v", "split_v"]
             n_ops = draw(st.integers(2, max_ops))
         if profile == "fanout":
@@ -939,7 +939,7 @@ def network(profile="exact", max_ops=6, dtypes=("int8", "int8", "int8", "uint8",
                     kind = "reshape"
                 elif kind == "reshape":
                     kind = "conv"
-            if not r4 and kind in ("conv", "twinconv", "dw", "dw_same", "unsupported_conv", "maxpool", "avgpool_valid", "avgpool_same", "padconv", "tconv", "resize_nearest", "resize_bilinear") or (kind == "mean" and len(X["shape"]) not in (2, 3, 4)):
+            if not r4 and kind in ("conv", "twinconv", "dw", "dw_same", "unsupported_conv", "maxpool", "avgpool_valid", "avgpool_same", "padconv", "padpool", "tconv", "resize_nearest", "resize_bilinear") or (kind == "mean" and len(X["shape"]) not in (2, 3, 4)):
                 kind = draw(st.sampled_from(["fc", "add_const", "reshape", "relu", "mul_const"]))
             if len(X["shape"]) == 0 and kind not in ("relu", "relu6", "quantize"):
                 kind = "relu"  # a scalar (everything reduced away): only element-wise operators apply
@@ -955,9 +955,15 @@ def network(profile="exact", max_ops=6, dtypes=("int8", "int8", "int8", "uint8",
                 cur = nb.conv(cur, "dw")
             elif kind == "dw_same":
                 cur = nb.conv(cur, "dw", force_pad="SAME", force_stride=(1, 1))
-            elif kind == "padconv":
+            elif kind in ("padconv", "padpool"):
                 p = nb.pad(cur, hw_only=True)
-                cur = nb.conv(p, draw(st.sampled_from(["conv", "dw"])), force_pad="VALID")
+                cons = draw(st.sampled_from(["conv", "dw", "maxpool"])) if kind == "padconv" else "maxpool"
+                # (a PAD pads with the zero point: in front of a max pool those elements take part in the maximum - they are not the hardware's 'ignored' padding)
+                if cons == "maxpool":
+                    pv = nb.info(nb.ops[-1]["inputs"][1])["data"]["values"]  # window at least twice the padding: the padding could pass for the window's own
+                    cur = nb.pool(p, "maxpool", pad="VALID", min_k=(2 * max(pv[2], pv[3], 0), 2 * max(pv[4], pv[5], 0)))
+                else:
+                    cur = nb.conv(p, cons, force_pad="VALID")
             elif kind == "tconv":
                 cur = nb.tconv(cur)
             elif kind == "fc":
